@@ -63,10 +63,10 @@ Theorem c06_keys : forall pyint0, pyint0_contract pyint0 ->
   (forall n, outcome_to_int pyint0 (KInt n) = Some n) /\
   (forall s, key_chars s <> [] -> forallb (digit_ok 2) (key_chars s) = true ->
      outcome_to_int pyint0 (KStr s) = Some (radix_value 2 (key_chars s))) /\
-  (forall s ds, key_chars s = "0"%char :: "b"%char :: ds -> ds <> [] -> forallb (digit_ok 2) ds = true ->
-     outcome_to_int pyint0 (KStr s) = Some (radix_value 2 ds)) /\
-  (forall s hs, key_chars s = "0"%char :: "x"%char :: hs -> hs <> [] -> forallb (digit_ok 16) hs = true ->
-     outcome_to_int pyint0 (KStr s) = Some (radix_value 16 hs)).
+  (forall s c ds, c = "b"%char \/ c = "B"%char -> key_chars s = "0"%char :: c :: ds -> ds <> [] ->
+     forallb (digit_ok 2) ds = true -> outcome_to_int pyint0 (KStr s) = Some (radix_value 2 ds)) /\
+  (forall s c hs, c = "x"%char \/ c = "X"%char -> key_chars s = "0"%char :: c :: hs -> hs <> [] ->
+     forallb (digit_ok 16) hs = true -> outcome_to_int pyint0 (KStr s) = Some (radix_value 16 hs)).
 Proof. exact keys_full. Qed.
 
 (* ... and data sets whose keys denote the same integers give the same result *)
@@ -74,6 +74,40 @@ Theorem c06_keys_same_result : forall pyint0 nobs coeffs pds pds',
   Forall2 (fun pd pd' => fst pd = fst pd' /\ data_equiv pyint0 (snd pd) (snd pd')) pds pds' ->
   reconstruct_parts pyint0 nobs coeffs pds = reconstruct_parts pyint0 nobs coeffs pds'.
 Proof. exact reconstruct_parts_keys. Qed.
+
+(* TOTALITY: whatever the data, the loops never crash; they return a value, or refuse, and a refusal
+   has one of exactly two causes: a result count that does not match, or an outcome key that
+   _outcome_to_int rejects. *)
+Theorem c06_total : forall pyint0 nobs coeffs pds,
+  (exists v, reconstruct_parts pyint0 nobs coeffs pds = Ok v) \/
+  (reconstruct_parts pyint0 nobs coeffs pds = Refused /\
+     ((exists pd, In pd pds /\ data_len (snd pd) <> length coeffs * length (pgroups (fst pd))) \/
+      (exists pd k, In pd pds /\ In k (keys_of (snd pd)) /\ outcome_to_int pyint0 k = None))).
+Proof. exact reconstruct_parts_total. Qed.
+
+(* FROM PAULI LETTERS (the model is not fed the implementation's own masks / lookup):
+   the measured qubits are the qubits on which the group's general observable acts, ascending; *)
+Theorem c06_measured_qubits : forall general,
+  pauli_indices_of general = filter (acts_on general) (seq 0 (length general)).
+Proof. exact pauli_indices_of_spec. Qed.
+
+(* bit j of an observable's mask is set iff j indexes a measured qubit on which the observable acts
+   -- this is what "the measured bits on which the observable acts" means in E; *)
+Theorem c06_mask_bits : forall idx member j,
+  bit (bitmask_of idx member) j = (j <? length idx) && acts_on member (nth j idx 0).
+Proof. exact bitmask_of_bit. Qed.
+
+(* the lookup of P is exactly the set of (group, member) positions holding P; *)
+Theorem c06_lookup : forall groups p a b,
+  In (a, b) (lookup_of groups p) <->
+  exists g x, nth_error groups a = Some g /\ nth_error (snd g) b = Some x /\ letters_eqb x p = true.
+Proof. exact lookup_of_spec. Qed.
+
+(* and a partition built from letters always satisfies the shape hypotheses of c06_estimator *)
+Theorem c06_letters_shape : forall label phases groups subobs,
+  length (plookup (part_of_letters label phases groups subobs)) = length subobs /\
+  locs_ok (part_of_letters label phases groups subobs).
+Proof. exact part_of_letters_ok. Qed.
 
 (* the contract assumed of int(s, 0) is satisfiable: the reference instance used by the
    correspondence check satisfies it *)
@@ -184,6 +218,17 @@ Example c06_ex_keys :
   = [Some 1025; Some 1025; Some 1025; Some 1025; Some 1; None; Some 12; None]%N.
 Proof. reflexivity. Qed.
 
+(* letters -> (len(pauli_indices), masks), lookup: general Z I X Z on qubits 0..3 has a gap at qubit 1 *)
+Example c06_ex_letters :
+  part_of_letters 7 [0; 0; 0] [([3; 0; 1; 3], [[3; 0; 0; 3]; [0; 0; 1; 0]; [0; 0; 0; 0]]); ([2; 0; 0; 0], [[2; 0; 0; 0]])]
+                  [[0; 0; 1; 0]; [2; 0; 0; 0]; [0; 0; 1; 0]]
+  = mkPart 7 [0; 0; 0] [(3, [5; 2; 0]%N); (1, [1%N])] [[(0, 1)]; [(1, 0)]; [(0, 1)]].
+Proof. reflexivity. Qed.
+
+Example c06_ex_keys_upper :
+  map (outcome_to_int pyint0_ref) [KStr "0B100 0000 0001"; KStr "0X401"; KStr "0Xg"] = [Some 1025; Some 1025; None]%N.
+Proof. reflexivity. Qed.
+
 Example c06_ex_count_refused :
   reconstruct_parts pyint0_ref 2 [Qmake 1 2] ex_pds = Refused.
 Proof. reflexivity. Qed.
@@ -197,6 +242,11 @@ Print Assumptions c06_count_refused.
 Print Assumptions c06_sign_values.
 Print Assumptions c06_keys.
 Print Assumptions c06_keys_same_result.
+Print Assumptions c06_total.
+Print Assumptions c06_measured_qubits.
+Print Assumptions c06_mask_bits.
+Print Assumptions c06_lookup.
+Print Assumptions c06_letters_shape.
 Print Assumptions c06_oracle_contract_inhabited.
 Print Assumptions c06_types_refused.
 Print Assumptions c06_keyset_refused.
